@@ -669,7 +669,7 @@ var kC16Tx = register(&Kind[c16TxCase]{
 
 func TestC16(t *testing.T) {
 	propTest(t, "C16", func(ev *Ev) {
-		ev.Rule("blocks of 0..40 transactions (1..4 inputs/outputs, scripts 0..80 bytes, optional CashToken data built with "+
+		ev.Rule("blocks of 0..40, 250..260, word-multiple (31..256) and 511..10000 transactions (the thousands as bare 10-byte transactions; otherwise 1..4 inputs/outputs, scripts 0..80 bytes, optional CashToken data built with "+
 			"wire.NewTokenData) x 4 constructors x accessor histories (<=30) of Tx(i), TxHash(i), Transactions(), Hash(), Bytes(), "+
 			"TxLoc(), SetHeight/Height with i in {-2^31,-1,0..n-1,n,n+1,2^31-1}. After each call its result is compared with a fresh "+
 			"computation from MsgBlock(): hash, bytes, MsgTx pointer identity, Index()==i, tx hash, same object on repeated calls, "+
